@@ -5,6 +5,8 @@
 -/
 import ImapVerif.Proofs.Num
 import ImapVerif.Proofs.StableGrammar
+import ImapVerif.Proofs.CodeText
+import ImapVerif.Proofs.RTResp
 
 open Bytes Parser Grammar
 
@@ -83,5 +85,41 @@ example : parseResponse (b!"* 4294967301 EXISTS\r\n") = .err := by rfl
     handed over verbatim -/
 example : parseResponse (b!"* OK [UIDNEXT 4294967296] x\r\n")
     = .ok (.data .ok none (some (b!"[UIDNEXT 4294967296] x"))) [] := by rfl
+
+/-! ### response level: an out-of-range numeral inside a bracketed code leaves the code as text -/
+
+open RT in
+/-- `* OK [UIDNEXT 4294967296] text` (any status, any of UIDVALIDITY / UIDNEXT / UNSEEN beyond 2^32-1 or
+    HIGHESTMODSEQ beyond 2^64-1, any keyword case, any number of digits): the response is a status
+    response *without* a code whose text is the complete bracketed string - the number is not
+    wrapped, not truncated and not silently turned into another code -/
+theorem status_line_code_overflow (st : Status) (ms : List Bool) (k : NumCode) (m : List Bool) (ds : Bytes)
+    (hne : ds ≠ []) (hall : ∀ d ∈ ds, isDigit d = true) (hbig : k.bound ≤ decVal ds) (t : Bytes) (ht : IsText t)
+    (rest : Bytes) :
+    parseResponse (b!"* " ++ ((spell (statusKw st) ms ++ (b!" " ++ (b!"[" ++ (spell k.kw m ++ (ds ++ (b!"]" ++ t)))))) ++
+        b!"\r\n") ++ rest)
+      = .ok (.data st none (some (b!"[" ++ (spell k.kw m ++ (ds ++ (b!"]" ++ t)))))) rest := by
+  have hrt : Parses respText (b!"[" ++ (spell k.kw m ++ (ds ++ (b!"]" ++ t))))
+      (none, some (b!"[" ++ (spell k.kw m ++ (ds ++ (b!"]" ++ t))))) (Starts crlfStart) :=
+    fun r hr => respText_overflow_is_text k m ds hne hall hbig t ht r hr
+  have htr : Parses trailingRespText (b!" " ++ (b!"[" ++ (spell k.kw m ++ (ds ++ (b!"]" ++ t)))))
+      (none, some (b!"[" ++ (spell k.kw m ++ (ds ++ (b!"]" ++ t))))) (Starts crlfStart) := by
+    unfold trailingRespText
+    exact Parses.map _ (v := some (none, some (b!"[" ++ (spell k.kw m ++ (ds ++ (b!"]" ++ t))))))
+      (Parses.optSome (Parses.bind (tag_ok _) hrt (fun _ _ => trivial)))
+  have hrc : Parses responseDataAlt (spell (statusKw st) ms ++ (b!" " ++ (b!"[" ++ (spell k.kw m ++ (ds ++ (b!"]" ++ t))))))
+      (.data st none (some (b!"[" ++ (spell k.kw m ++ (ds ++ (b!"]" ++ t)))))) (Starts crlfStart) := by
+    unfold responseDataAlt
+    refine Parses.altL ?_
+    unfold respCond
+    refine Parses.bind (statusP_enc st ms) ?_ (fun _ _ => trivial)
+    exact Parses.bind' htr (Parses.pure _ _) (fun _ h => h) (by simp)
+  have := parseResponse_untaggedF _ _ 0 (Starts crlfStart) hrc (fun r => ⟨13, 10 :: r, by simp, by decide⟩) rest
+  simpa using this
+
+/-- non-vacuity of the hypotheses, and the concrete instance -/
+example : RT.NumCode.uidNext.bound ≤ decVal (b!"4294967296") := by decide
+example : parseResponse (b!"* OK [UIDNEXT 4294967296] x\r\n") =
+    .ok (.data .ok none (some (b!"[UIDNEXT 4294967296] x"))) [] := by rfl
 
 end C13
